@@ -6,6 +6,15 @@ pid = sys.argv[1]
 extra = ""
 if len(sys.argv) > 2 and sys.argv[2] == "wide":
     extra = " Look AWAY from the obvious core of the property: prefer flag / preference combinations, rarely used operators or operator flags, interactions between two operators, state that is kept between documents or files, unusual but valid input syntax, and code that only runs for one input or output format."
+n_changes = "TWO"
+files = "change1.diff, change2.diff"
+demos = "demo1.* , demo2.*"
+if len(sys.argv) > 2 and sys.argv[2] == "shared":
+    # round 4: three changes, in code that several operators or formats share
+    n_changes = "THREE"
+    files = "change1.diff, change2.diff, change3.diff"
+    demos = "demo1.* , demo2.* , demo3.*"
+    extra = " Prefer changes in code that is SHARED by several operators or formats (pkg/yqlib/candidate_node.go, context.go, lib.go, data_tree_navigator.go, the lexer and expression parser, the printer and the evaluators, cmd/ flag plumbing) whose effect on THIS property is indirect, and boundary conditions (off-by-one, empty collection, first/last element, zero, negative numbers, very long input). Avoid the operator or file the property's title points at most directly."
 p = [json.loads(l) for l in open('/verif/properties.jsonl') if json.loads(l)['id'] == pid][0]
 wt = "/tmp/wt-%s" % pid
 out = "/tmp/seed-%s" % pid
@@ -22,14 +31,14 @@ THE PROPERTY (id {pid}: {p['title']}):
 
 It is meant to hold: {p['quantifier']['text']}
 
-YOUR TASK: produce TWO independent, realistic source changes to the yq code (each the kind of plausible regression/refactoring slip a maintainer could make - NOT an obvious sabotage) such that, for each change separately:
+YOUR TASK: produce {n_changes} independent, realistic source changes to the yq code (each the kind of plausible regression/refactoring slip a maintainer could make - NOT an obvious sabotage) such that, for each change separately:
   1. the code still compiles, and the existing test suite STILL PASSES unchanged (run it and confirm; do not edit any *_test.go or golden files);
   2. the property above is BROKEN by the change;
-  3. the breakage needs something specific to manifest - e.g. an unusual input shape, a multi-step sequence of operations, a particular fault/crash point or interleaving, a specific flag combination, or two cooperating code sites that each look fine alone - rather than something every ordinary use would expose at once. Prefer subtle over blatant: a change that breaks only some region of the input space is ideal. The two changes should be in different code sites / mechanisms.{extra}
+  3. the breakage needs something specific to manifest - e.g. an unusual input shape, a multi-step sequence of operations, a particular fault/crash point or interleaving, a specific flag combination, or two cooperating code sites that each look fine alone - rather than something every ordinary use would expose at once. Prefer subtle over blatant: a change that breaks only some region of the input space is ideal. The changes should be in different code sites / mechanisms.{extra}
   4. you provide a demonstration that FAILS with the change applied and PASSES without it: either a Go test file (put a copy in {out}; it may be dropped into pkg/yqlib or cmd of the worktree to run) or a small shell script that builds the yq binary from a given tree (usage: demo.sh <repo-dir>) and exits non-zero when the property is violated. Verify both directions yourself (with the change: fails; `git stash`/without: passes).
 
 Deliverables, in {out}/:
-  change1.diff, change2.diff   - `git diff` output against the worktree's HEAD (source changes only, no test files), each applying cleanly with `git apply` to a clean checkout
-  demo1.* , demo2.*            - the demonstrations (Go test file or shell script), with a comment at the top saying how to run it
+  {files}   - `git diff` output against the worktree's HEAD (source changes only, no test files), each applying cleanly with `git apply` to a clean checkout
+  {demos}            - the demonstrations (Go test file or shell script), with a comment at the top saying how to run it
   notes.md                     - for each change: what it does, why the existing tests miss it, exactly what is needed for it to manifest, and the commands you ran with their observed results (with and without the change).
 Leave the worktree clean (git checkout -- . ; remove any test files you dropped in) when you are done. Keep your final answer short: just list the files and one line per change.""")
